@@ -2,7 +2,7 @@
 (* Generator for C08: a dialect-sensitive element inside every nesting      *)
 (* construct, at depth 1 and 2.                                             *)
 EXTENDS PT_Dialect, Json
-Elements == {"quoted-names", "placeholder", "boolean", "array", "interval", "pagination", "groupby-alias", "string-value", "alias", "backslash-string", "json-value"}
+Elements == {"quoted-names", "placeholder", "boolean", "array", "interval", "pagination", "groupby-alias", "string-value", "alias", "backslash-string", "json-value", "user-parameter"}
 Constructs == {"top", "subquery-from", "subquery-join", "subquery-in", "subquery-select", "cte", "setop-base", "setop-operand", "insert-select", "create-as"}
 VARIABLES elem, c1, c2
 Init == elem \in Elements /\ c1 \in Constructs /\ c2 \in Constructs \cup {"none"}
